@@ -99,11 +99,20 @@ impl Report {
             Err(e) => self.model_error = Some(e),
             Ok(answers) => {
                 for (p, a) in pending.iter().zip(answers.iter()) {
-                    let (i, m) = if p.level <= 1 {
-                        (crate::wire::l1(&p.implementation), crate::wire::l1(a))
-                    } else {
-                        (p.implementation.clone(), a.clone())
+                    let canon = |x: &str| -> String {
+                        match p.level {
+                            0 | 1 => crate::wire::l1(x),
+                            3 => {
+                                // L1 on the result token, call log verbatim
+                                match x.split_once(' ') {
+                                    Some((head, rest)) => format!("{} {}", crate::wire::l1(head), rest),
+                                    None => crate::wire::l1(x),
+                                }
+                            }
+                            _ => x.to_string(),
+                        }
                     };
+                    let (i, m) = (canon(&p.implementation), canon(a));
                     if i != m && self.disagreements.len() < 200 {
                         self.disagreements.push(Failure {
                             input: p.input.clone(),
